@@ -143,11 +143,22 @@ def to_polars(frame, lazy=False):
     return d.lazy() if lazy else d
 
 
-def run_polars(ops, frames, lazy=False):
+_EAGER_MODEL = []
+
+
+def run_polars(ops, frames, lazy=False, eager_model=False):
+    """lazy: present LazyFrame inputs; eager_model: evaluate with PolarsModel(use_lazy_eval=False)"""
     import polars as pl
 
     data = {k: to_polars(v, lazy) for k, v in frames.items()}
-    res = ops.eval(data)
+    if eager_model:
+        if not _EAGER_MODEL:
+            import data_algebra.polars_model as pm
+
+            _EAGER_MODEL.append(pm.PolarsModel(use_lazy_eval=False))
+        res = ops.eval(data, data_model=_EAGER_MODEL[0])
+    else:
+        res = ops.eval(data)
     if isinstance(res, pl.LazyFrame):
         res = res.collect()
     return res
